@@ -36,6 +36,7 @@ type c08Run struct {
 	l2block   uint64
 	initial   map[string]*big.Int
 	nClaimOK  int
+	blocked   bool // the next-in-order relay was rejected: the bridge's deposit path is stuck; no retries
 	steps     int
 }
 
@@ -115,7 +116,7 @@ func (y *c08Run) stepDeposit(kind int, amt *big.Int, data []byte, to string) {
 
 // relay the event with index k (0-based) of the emitted list
 func (y *c08Run) stepRelay(k int) []WEvent {
-	if k < 0 || k >= len(y.events) {
+	if k < 0 || k >= len(y.events) || (y.blocked && k >= y.relayed) {
 		return nil
 	}
 	sc := y.sc
@@ -146,10 +147,13 @@ func (y *c08Run) stepRelay(k int) []WEvent {
 			}
 		}
 		if len(ds) == 1 && !ds[0].Success && len(ws) != 1 {
-			y.viol(len(sc.Case.Ops)-1, "C08:refund-missing", "a failed deposit recorded no refund withdrawal")
+			y.viol(len(sc.Case.Ops)-1, "C08:refund-events", fmt.Sprintf("a failed deposit must emit exactly one initiate_token_withdrawal event (its refund), it emitted %d (an event of a rolled-back hook message is a phantom withdrawal)", len(ws)))
 		}
 	} else if k == y.relayed {
-		y.viol(len(sc.Case.Ops)-1, "C08:relay-rejected", fmt.Sprintf("L2 rejected the in-order faithful relay of deposit %d: %s", ev.Seq, res.Err))
+		// the deposit can be neither credited nor refunded and blocks every later one: this IS the
+		// violation; it is reported once with the history and the relay is never retried
+		y.blocked = true
+		y.viol(len(sc.Case.Ops)-1, "C08:relay-rejected", fmt.Sprintf("L2 rejected the in-order faithful relay of deposit %d (to %q, %s %s): %s - the deposit can be neither credited nor refunded and blocks every later deposit", ev.Seq, ev.To, ev.Amt, ev.L1Denom, res.Err))
 	}
 	y.check("relay")
 	return out
@@ -344,10 +348,24 @@ func (y *c08Run) stepClaim() {
 	}
 }
 
-// a deposit whose hook tx carries MsgInitiateTokenWithdrawal signed by the recipient (D14)
-func (y *c08Run) stepHookWithdrawal() {
-	for y.relayed < len(y.events) {
+// relayAll relays the pending events in order: at most one attempt per pending event, and it
+// stops at the first attempt that does not advance (reported by stepRelay) - bounded by construction
+func (y *c08Run) relayAll() {
+	for n := len(y.events) - y.relayed; n > 0; n-- {
+		before := y.relayed
 		y.stepRelay(y.relayed)
+		if y.relayed == before {
+			return
+		}
+	}
+}
+
+// a deposit whose hook tx carries MsgInitiateTokenWithdrawal signed by the recipient (D14); in a
+// third of them a second hook message fails, so the whole hook is rolled back and the deposit refunded
+func (y *c08Run) stepHookWithdrawal() {
+	y.relayAll()
+	if y.blocked || y.relayed < len(y.events) {
+		return
 	}
 	r, e2 := y.r, y.sc.Env
 	u := e2.User(uint64(1 + r.Intn(5)))
@@ -356,7 +374,11 @@ func (y *c08Run) stepHookWithdrawal() {
 	part := new(big.Int).Add(big.NewInt(1), new(big.Int).Rsh(amt, 1))
 	to := y.e1.User(uint64(1 + r.Intn(7))).Str
 	y.sc.register(u.Str)
-	hook := e2.MakeHookTx(u.ID, e2.AccSeq(u.ID), true, []HookSend{{Withdraw: true, ToL1: to, Denom: y.l2d[di], Amt: part}})
+	msgs := []HookSend{{Withdraw: true, ToL1: to, Denom: y.l2d[di], Amt: part}}
+	if r.Chance(35) { // a bank send of more than the signer holds: the hook fails after the withdrawal ran
+		msgs = append(msgs, HookSend{To: uint64(1 + r.Intn(5)), Denom: y.sc.Native, Amt: pow2(100)})
+	}
+	hook := e2.MakeHookTx(u.ID, e2.AccSeq(u.ID), true, msgs)
 	data := hook.Raw
 	y.hooks[hex.EncodeToString(data)] = hook
 	if ev, ok := y.deposit(y.l1Sender(), u.Str, y.bases[di], amt, data); ok {
@@ -368,9 +390,7 @@ func (y *c08Run) stepHookWithdrawal() {
 }
 
 func (y *c08Run) drain() {
-	for y.relayed < len(y.events) {
-		y.stepRelay(y.relayed)
-	}
+	y.relayAll()
 	y.stepPropose()
 	y.now += 8 * sec
 	for k, lf := range y.leaves {
@@ -402,6 +422,11 @@ func (y *c08Run) drain() {
 		supply := e2.BK.GetSupply(e2.Ctx, y.l2d[i]).Amount.BigInt()
 		want := new(big.Int).Add(supply, y.donations[d])
 		want.Add(want, unclaimable)
+		for _, ev := range y.events[y.relayed:] { // only non-empty when the deposit path is blocked (already reported)
+			if ev.L1Denom == d {
+				want.Add(want, ev.Amt)
+			}
+		}
 		if escrow.Cmp(want) != 0 {
 			y.viol(len(y.c1.Ops)-1, "C08:drain-escrow", fmt.Sprintf("after the drain escrow(%s) = %s, L2 supply + donations + unclaimable (zero / bad recipient) = %s", d, escrow, want))
 		}
